@@ -1625,6 +1625,8 @@ uint32_t reb_hash(const char* str){
 
 void reb_simulation_imul(struct reb_simulation* r, double scalar_pos, double scalar_vel){
     const int N = r->N;
+    // The IAS15 predictor and compensated-summation arrays refer to the unscaled coordinates.
+    reb_integrator_ias15_reset(r);
     struct reb_particle* restrict const particles = r->particles;
 	for (int i=0;i<N;i++){
         particles[i].x *= scalar_pos;
